@@ -7,6 +7,11 @@ props = [json.loads(l) for l in open(os.path.join(V, "properties.jsonl"))]
 
 # property id -> (category, technique, level text, level note) ; absent = not claimed (reason in NOT_APPLICABLE)
 CLAIMS = {
+ "C06": ("exploration",
+         "runtime monitoring: independent R7RS tokenizer/reader as oracle; exhaustive short strings through the real Lexer (token boundaries + data), through the real reader, and random datum trees under random layouts (metamorphic)",
+         "every string up to length 4 (5 thorough) over a 16-character alphabet is tokenized by the real Lexer and by an independent tokenizer: token boundaries must coincide (tokens split only at delimiters) and supported tokens must carry the right datum; the strings that denote exactly one datum are also read through eval and compared, malformed dotted lists must be rejected; random datum trees are rendered three ways with random whitespace/comments and must read back as the tree. The missing delimiter after #t/#f/#\\c is a listed known finding (pinned by the repository's own tests).",
+         "trusted base: vlib/sxread.py; sign-dot identifiers (+.a) and other valid-but-unimplemented syntax may be rejected but not re-split"),
+
  "C04": ("exploration",
          "runtime monitoring: reference syntax-rules matcher/instantiator as oracle over an exhaustive pattern x use grid and random rule sets with derived and mutated uses; observed through eval and through Transformer::transform",
          "every single-rule macro with a pattern of bounded size over an 11-element alphabet against every use of bounded size over 12 data, sampled two-rule sets, and random rule sets (1-5 rules, depth 3) with uses instantiated from their own patterns and single-point mutations are expanded by the real expander; the selected rule and the instantiated template (or the syntax error when no rule matches) are judged by an independent matcher for exactly the class the property names.",
